@@ -214,6 +214,12 @@ def persistence(res, facts, entries):
             n += 1
             users = w.get("user_defs", [])
             ok = w["field"] == "claims" and w["kind"] == "mutborrow" and bool(users) and all(re.search(r"HashMap::<K, V, S, A>::remove$", u) for u in users) and bool(re.search(GB + r"remove_claim$", bid))
+            if not ok and w["field"] == "claims" and re.search(GB + r"remove_claim$", bid):
+                # however the removal is spelt (a private wrapper type around the map, a helper): what remove_claim does to a concrete
+                # claim map was decided by interpretation - exactly the entry under the key goes (rules/props/c14.py mutator_contracts)
+                from . import c14
+                rc = c14.mutator_contracts(facts).get("remove_claim")
+                ok = rc is not None and rc[0]
             res.oblige(ok)
             if ok:
                 res.inst("C13.R5", "%s: keyed removal from claims (the only builder-state write reachable from build)" % M.short(bid))
